@@ -173,13 +173,13 @@ theorem relhist_register_keeps : type_of% @Ark.Props.C05Rel.register_keeps := @A
 /-- FilterN.Unregister -/
 theorem relhist_unregister_keeps : type_of% @Ark.Props.C05Rel.unregister_keeps := @Ark.Props.C05Rel.unregister_keeps
 
-/-- one step of the extended machine keeps the joint invariant (every operation but Reset) -/
+/-- one step of the extended machine keeps the joint invariant (every operation, Reset included) -/
 theorem relhist_step2_keeps : type_of% @Ark.Props.C05Rel.step2_keeps := @Ark.Props.C05Rel.step2_keeps
 
-/-- the joint invariant holds after every Reset-free history -/
+/-- the joint invariant holds after every history (Reset anywhere in it) -/
 theorem relhist_reach2_invariant : type_of% @Ark.Props.C05Rel.reach2_invariant := @Ark.Props.C05Rel.reach2_invariant
 
-/-- the cache invariant holds after every Reset-free history with relation tables -/
+/-- the cache invariant holds after every history with relation tables (Reset anywhere in it) -/
 theorem relhist_reach2_cache_invariant : type_of% @Ark.Props.C05Rel.reach2_cache_invariant := @Ark.Props.C05Rel.reach2_cache_invariant
 
 /-- Shrink as a step: empty relation tables are freed and leave the cache -/
@@ -191,11 +191,26 @@ theorem relhist_cached_agrees : type_of% @Ark.Props.C05Rel.cached_agrees := @Ark
 /-- the same at any state satisfying the invariant -/
 theorem relhist_cached_agrees_at : type_of% @Ark.Props.C05Rel.cached_agrees_at := @Ark.Props.C05Rel.cached_agrees_at
 
-/-- PARTIAL — Reset as a step: succeeds, empties the cache and unregisters every filter object, all invariants hold again except the pool link `stale = []` of the relation development (see reset_breaks_invariant) -/
+/-- Reset as a step of the relation machine: succeeds, empties the specification (new epoch), empties the cache and unregisters every filter object; the joint invariant TInv (empty free list), the whole filter-side invariant and HInv2 hold again; no ID is indexed to a table; handles with an unreserved ID and a generation other than MaxUint32 are dead -/
+theorem relhist_reset_step : type_of% @Ark.Props.C05Rel.reset_step := @Ark.Props.C05Rel.reset_step
+
+/-- the former name of relhist_reset_step (no longer partial: the pool link of the relation development only demands that the memory Reset keeps behind the pool slice holds invalidated handles) -/
 theorem relhist_reset_step_partial : type_of% @Ark.Props.C05Rel.reset_step_partial := @Ark.Props.C05Rel.reset_step_partial
 
-/-- why the relation machine's histories are Reset-free: after `new; reset` the model pool keeps the invalidated handle behind the slice, which the invariant TInv of the relation development excludes (a limit of that invariant, not of the code: Reset over histories is C16Hist's subject) -/
-theorem relhist_reset_breaks_invariant : type_of% @Ark.Props.C05Rel.reset_breaks_invariant := @Ark.Props.C05Rel.reset_breaks_invariant
+/-- Reset keeps the invariant of the machine -/
+theorem relhist_reset_keeps_invariant : type_of% @Ark.Props.C05Rel.reset_keeps_invariant := @Ark.Props.C05Rel.reset_keeps_invariant
+
+/-- Reset ends the epoch: specification empty, nothing issued, no ID indexed, cache empty, every filter object unregistered, every handle issued before is dead -/
+theorem relhist_reset_effect : type_of% @Ark.Props.C05Rel.reset_effect := @Ark.Props.C05Rel.reset_effect
+
+/-- no handle issued along a history of the relation machine carries the sentinel generation MaxUint32 -/
+theorem relhist_issued_gen_bound : type_of% @Ark.Props.C05Rel.issued_gen_bound := @Ark.Props.C05Rel.issued_gen_bound
+
+/-- a concrete history with Reset in the middle (replaces the former finding reset_breaks_invariant): relation tables are recycled in the new epoch, invalidated handles are still behind the pool slice, and TInv and HInv2 hold -/
+theorem relhist_reset_history_invariant : type_of% @Ark.Props.C05Rel.reset_history_invariant := @Ark.Props.C05Rel.reset_history_invariant
+
+/-- after `new; reset` the model pool keeps the invalidated handle behind the slice -/
+theorem relhist_reset_keeps_memory : type_of% @Ark.Props.C05Rel.reset_keeps_memory := @Ark.Props.C05Rel.reset_keeps_memory
 
 
 end Ark.Props.C05
